@@ -22,7 +22,7 @@ def safe_opts(opts):
 def unclaimed_refusal(opts, verdict):
     """arrays built with safe_mode=False promise no refusals: a case that level A refuses has no claimed outcome there"""
     return verdict == "not-refused" and bool(opts) and "unsafe" in (opts.get("via"), opts.get("via2"), opts.get("via0")) + tuple(opts.get("vias") or ())
-SPELLINGS = ["plain", "tuple", "empty", "numpy", "numpy32", "pylist"]
+SPELLINGS = ["plain", "tuple", "empty", "numpy", "numpy32", "pylist", "numpy8"]
 PRES = [None, ["sum"], ["repr"], ["unique"], ["max"], ["rowmean"], ["size", "sum"], ["any", "pad"], ["colsum"], ["sum", "unique"]]
 
 
